@@ -5,6 +5,8 @@
     store P  "things"  (base path ["u"]): name (non-nullable unique index), roles (set index),
                         ref (nullable fk index P.ref -> P.backrefs, restrict on delete)
     store C  plain child of P (path ["ext"]): rank
+    store D  second plain child of P (path ["ext2"]): grade — registered after C; an entity may have data
+             in C, in D, in both or in neither
     custom boltz.Constraint implementations registered with AddConstraint on P and on C (after the
     built-in indexes), which veto chosen (stage, id) pairs through ctx.ErrHolder.SetError
   The database is abstracted to the entity table; every index is a function of it (that the real
@@ -13,7 +15,7 @@
 -/
 namespace StorageModel.Tx
 
-inductive StoreId | P | C
+inductive StoreId | P | C | D
   deriving DecidableEq, Repr, Inhabited
 
 /-- EntityCreated / EntityUpdated / EntityDeleted (the change type of an EntityChangeState) -/
@@ -26,16 +28,50 @@ structure EvType where
   async : Bool
   deriving DecidableEq, Repr
 
+/-- one step into the entity's `tags` value (a map[string]interface{} persisted with SetMap): a map key
+    or a list index -/
+inductive Seg
+  | key (k : String)
+  | idx (i : Nat)
+  deriving DecidableEq, Repr
+
+/-- what sits at the end of a path of the `tags` value.  `unsupported`: a Go value of a type
+    TypedBucket.setMarshaled has no case for (uint16, []string, …) -/
+inductive Leaf
+  | str (s : String)
+  | bool (b : Bool)
+  | nil
+  | unsupported (flavour : Nat)
+  | emptyMap
+  | emptyList
+  deriving DecidableEq, Repr
+
+def Leaf.isUnsupported : Leaf → Bool
+  | .unsupported _ => true
+  | _ => false
+
+/-- the `tags` value, flattened: one entry per leaf (or empty container), with the path leading to it
+    from the top-level map (so the first segment is a key) -/
+structure TagEntry where
+  path : List Seg
+  leaf : Leaf
+  deriving DecidableEq, Repr
+
 structure PFields where
   name : String
   roles : List String
   ref : Option String
+  /-- `tags map[string]interface{}`, persisted by the parent strategy with ctx.SetMap("tags", …) after the
+      other fields -/
+  tags : List TagEntry := []
   deriving DecidableEq, Repr
 
 structure Ent where
   f : PFields
-  /-- `some rank` iff the entity has data in the child store's bucket -/
+  /-- `some rank` iff the entity has data in the child store C's bucket -/
   child : Option String
+  /-- `some grade` iff the entity has data in the second child store D's bucket -/
+  child2 : Option String := none
   deriving DecidableEq, Repr
 
 abbrev Db := List (String × Ent)
@@ -92,16 +128,25 @@ end Db
 inductive EntView
   | parent (id : String) (f : PFields)
   | child (id : String) (f : PFields) (rank : String)
+  | child2 (id : String) (f : PFields) (grade : String)
   deriving DecidableEq, Repr
 
 /-- the store definition's ParentMapper (`&child.Thing`) -/
 def EntView.toParent : EntView → EntView
   | .parent id f => .parent id f
   | .child id f _ => .parent id f
+  | .child2 id f _ => .parent id f
 
 def EntView.id : EntView → String
   | .parent id _ => id
   | .child id _ _ => id
+  | .child2 id _ _ => id
+
+/-- the data an entity has in a store's own bucket path (the parent store: none of its own to look for) -/
+def Ent.data (e : Ent) : StoreId → Option String
+  | .P => none
+  | .C => e.child
+  | .D => e.child2
 
 /-- `GetEntityBucket != nil`: for the child store, the entity must have the child path -/
 def present (σ : StoreId) (db : Db) (id : String) : Bool :=
@@ -110,6 +155,7 @@ def present (σ : StoreId) (db : Db) (id : String) : Bool :=
   | some e => match σ with
     | .P => true
     | .C => e.child.isSome
+    | .D => e.child2.isSome
 
 /-- FindById's view (when the load does not fail) -/
 def view (σ : StoreId) (db : Db) (id : String) : Option EntView :=
@@ -118,6 +164,7 @@ def view (σ : StoreId) (db : Db) (id : String) : Option EntView :=
   | some e => match σ with
     | .P => some (.parent id e.f)
     | .C => e.child.map fun r => .child id e.f r
+    | .D => e.child2.map fun g => .child2 id e.f g
 
 /-- the three calls an Indexer makes on its constraints (boltz.Constraint) -/
 inductive Stage | beforeUpdate | afterUpdate | beforeDelete
@@ -136,6 +183,8 @@ inductive Err
   | caller (tag : Nat)
   | preCommit (tag : Nat)
   | parse | load | persist
+  /-- TypedBucket.setMarshaled: "unsupported type … in map" -/
+  | unsupported
   deriving DecidableEq, Repr
 
 inductive Res | ok | err (e : Err)
@@ -238,15 +287,20 @@ structure Env where
   /-- custom index-stage constraints (AddConstraint) of the parent / the child store, in registration order -/
   ixP : List IxReg := []
   ixC : List IxReg := []
+  /-- registrations and custom index-stage constraints of the second child store -/
+  regsD : List Reg := []
+  ixD : List IxReg := []
   deriving Repr
 
 def Env.regs (env : Env) : StoreId → List Reg
   | .P => env.regsP
   | .C => env.regsC
+  | .D => env.regsD
 
 def Env.ix (env : Env) : StoreId → List IxReg
   | .P => env.ixP
   | .C => env.ixC
+  | .D => env.ixD
 
 /-- EntityChangeState -/
 structure Flow where
@@ -323,7 +377,9 @@ inductive Op
   deriving DecidableEq, Repr
 
 /-- injected storage error: the n-th FillEntity / PersistEntity call (1-based, counted per store
-    strategy within the operation, the child-store mapper's lookup not counted) fails -/
+    strategy within the operation, the child-store mappers' lookups not counted) fails.  Injection points
+    are the strategies of P and of C; the strategy of D is not instrumented itself (`load .D` / `persist .D`
+    never strike) but calls the parent's strategy, which is. -/
 inductive Fault
   | none
   | load (σ : StoreId) (n : Nat)
